@@ -24,13 +24,14 @@ class Monitor:
   """unit: 'module:Class.method'; pre(args...) -> snapshot; post(snapshot, result, *args) raises
   AssertionError (message = clause) when the contract is violated."""
 
-  def __init__(self, unit, props, clauses, pre=None, post=None, on_raise=None):
+  def __init__(self, unit, props, clauses, pre=None, post=None, on_raise=None, snapshot_result=False):
     self.unit = unit
     self.props = props
     self.clauses = clauses      # human-readable contract, for the evidence
     self.pre = pre
     self.post = post
     self.on_raise = on_raise
+    self.snapshot_result = snapshot_result    # children get a deep copy of the result (it is mutated later)
     self.calls = 0
 
 
@@ -74,7 +75,7 @@ def install(monitors):
           result = orig(*args, **kw)
           STACK.pop()
           if STACK:
-            STACK[-1]['children'].append((m.unit, args, result))
+            STACK[-1]['children'].append((m.unit, args, copy.deepcopy(result) if m.snapshot_result else result))
         except MonitorViolation:
           STACK.pop()
           raise
